@@ -69,3 +69,12 @@ package controlsvc
 //@ func (*ReloadCommandType).InitFromJSON
 //@   tags C08
 //@   safety
+
+// ---- C05: the control connection gets the announcement line and then every chunk of the result channel, each
+// ---- written completely and in the order received, until the channel is closed or a write fails
+//@ func (*SockControl).WriteToConn
+//@   tags C05
+//@   requires s != nil && s.conn != nil
+//@   site call WriteMessage FIRST: [C05] requires arg1 == message && ownsends() == 0
+//@   site call Write CHUNK: [C05] requires arg0 == bytes && lastcall("WriteMessage", 0) == nil
+//@   site block * UNTILCLOSED: [C05] requires waits(in)
